@@ -1,0 +1,229 @@
+//go:build verif
+
+package utreexo
+
+// This file contains nothing but comments: the machine-checked contracts of the
+// functions the properties in /verif/properties.jsonl depend on.  It is only
+// compiled with the build tag `verif` (and even then adds no code).  The
+// verification-condition generator /verif/govc reads the `//@` lines, binds the
+// names in each header positionally to the real parameters and results, and
+// discharges every obligation with z3 / cvc5.  See /verif/DESIGN.md section 2.1.
+//
+// Spec functions (start, rowOf, offsetOf, parentS, ...) are defined in
+// /verif/spec/prelude.smt2 from the geometry sentence of property C16.
+
+// ---------------------------------------------------------------------------
+// C16: position arithmetic (utils.go)
+// ---------------------------------------------------------------------------
+
+//@ func LeftChild(position uint64, forestRows uint8) (res uint64)
+//@   ensures  forestRows <= 63 && inRow(position, forestRows) && rowOf(position, forestRows) >= 1 ==> res == lchildS(position, forestRows)
+//@   ensures  forestRows <= 63 && inRow(position, forestRows) && rowOf(position, forestRows) >= 1 ==> inRow(res, forestRows) && rowOf(res, forestRows) == rowOf(position, forestRows) - 1
+//@   split forestRows 0 63
+
+//@ func RightChild(position uint64, forestRows uint8) (res uint64)
+//@   ensures  forestRows <= 63 && inRow(position, forestRows) && rowOf(position, forestRows) >= 1 ==> res == rchildS(position, forestRows)
+//@   ensures  forestRows <= 63 && inRow(position, forestRows) && rowOf(position, forestRows) >= 1 ==> inRow(res, forestRows) && rowOf(res, forestRows) == rowOf(position, forestRows) - 1
+//@   split forestRows 0 63
+
+//@ func ChildMany(position uint64, drop uint8, forestRows uint8) (res uint64, err error)
+//@   ensures  (err != nil) == (drop != 0 && drop > forestRows)
+//@   ensures  drop == 0 ==> res == position
+//@   ensures  err != nil ==> res == 0
+//@   ensures  forestRows <= 63 && inRow(position, forestRows) && err == nil && drop <= rowOf(position, forestRows) ==> res == descS(position, drop, forestRows)
+//@   split forestRows 0 63
+
+//@ func sibling(pos uint64) (res uint64)
+//@   ensures res == siblingS(pos)
+
+//@ func leftSib(pos uint64) (res uint64)
+//@   ensures res == pos - pos%2
+
+//@ func rightSib(pos uint64) (res uint64)
+//@   ensures res == pos - pos%2 + 1
+
+//@ func isLeftNiece(position uint64) (res bool)
+//@   ensures res == (position%2 == 0)
+
+//@ func Parent(position uint64, forestRows uint8) (res uint64)
+//@   ensures  forestRows <= 63 && inRow(position, forestRows) && rowOf(position, forestRows) < forestRows ==> res == parentS(position, forestRows)
+//@   ensures  forestRows <= 63 && inRow(position, forestRows) && rowOf(position, forestRows) < forestRows ==> inRow(res, forestRows) && rowOf(res, forestRows) == rowOf(position, forestRows) + 1
+//@   split forestRows 0 63
+
+//@ func ParentMany(position uint64, rise uint8, forestRows uint8) (res uint64, err error)
+//@   ensures  (err != nil) == (rise != 0 && rise > forestRows)
+//@   ensures  rise == 0 ==> res == position
+//@   ensures  err != nil ==> res == 0
+//@   ensures  forestRows <= 63 && err == nil && inRow(position, forestRows) && rowOf(position, forestRows) + rise <= forestRows ==> res == ancS(position, rise, forestRows)
+//@   ensures  forestRows <= 63 && err == nil && rise >= 1 && position <= pow2(forestRows) ==> res == start(rise, forestRows) + (position >> rise)
+//@   split forestRows 0 63
+
+//@ func rootPosition(leaves uint64, h uint8, forestRows uint8) (res uint64)
+//@   ensures forestRows <= 63 && h <= forestRows && leaves <= pow2(forestRows) ==> res == rootPosS(leaves, h, forestRows)
+//@   ensures forestRows <= 63 && h <= forestRows && leaves <= pow2(forestRows) && hasRoot(leaves, h) ==> inRow(res, forestRows) && rowOf(res, forestRows) == h
+//@   split forestRows 0 63
+
+//@ func rootExistsOnRow(numLeaves uint64, h uint8) (res bool)
+//@   ensures h <= 63 ==> res == hasRoot(numLeaves, h)
+//@   ensures h > 63 ==> !res
+
+//@ func TreeRows(n uint64) (res uint8)
+//@   ensures res == treeRowsS(n)
+
+//@ func numRoots(numLeaves uint64) (res uint8)
+//@   ensures res == popcount(numLeaves)
+
+//@ func maxLeafCount(forestRows uint8) (res uint64)
+//@   ensures forestRows <= 63 ==> res == pow2(forestRows)
+//@   ensures forestRows > 63 ==> res == 0
+
+//@ func maxPosition(forestRows uint8) (res uint64)
+//@   ensures forestRows <= 63 ==> res == maxPos(forestRows)
+//@   ensures forestRows > 63 ==> res == 18446744073709551615
+
+//@ func startPositionAtRow(row uint8, forestRows uint8) (res uint64)
+//@   ensures forestRows <= 63 && row <= forestRows ==> res == start(row, forestRows)
+
+//@ func maxPossiblePosAtRow(row uint8, totalRows uint8) (res uint64)
+//@   ensures totalRows <= 63 && row <= totalRows ==> res == start(row+1, totalRows) - 1
+
+//@ func maxPositionAtRow(row uint8, forestRows uint8, numLeaves uint64) (res uint64, err error)
+//@   ensures (err != nil) == (row != 0 && row > forestRows)
+//@   ensures err != nil ==> res == 0
+//@   ensures forestRows <= 63 && err == nil && numLeaves <= pow2(forestRows) ==> res == satdec(start(row, forestRows) + (numLeaves >> row))
+//@   split forestRows 0 63
+
+//@ func DetectRow(position uint64, forestRows uint8) (h uint8)
+//@   ensures forestRows <= 63 ==> h <= forestRows + 1
+//@   ensures forestRows <= 63 && inRow(position, forestRows) ==> h == rowOf(position, forestRows)
+//@   ensures forestRows > 63 ==> h == 0
+//@   loop 1: unroll 65
+//@   split forestRows 0 63
+
+//@ func getLowestRoot(numLeaves uint64, totalRows uint8) (row uint8)
+//@   requires totalRows <= 63
+//@   ensures row == lowestSet(numLeaves, totalRows)
+//@   loop 1: unroll 65
+
+//@ func translatePos(pos uint64, fromTotalRow uint8, toTotalRow uint8) (res uint64)
+//@   ensures fromTotalRow <= 63 && toTotalRow <= 63 && inRow(pos, fromTotalRow) && rowOf(pos, fromTotalRow) <= toTotalRow ==> res == translateS(pos, fromTotalRow, toTotalRow)
+//@   split fromTotalRow 0 63
+
+//@ func isRootPositionOnRow(position uint64, numLeaves uint64, row uint8) (res bool)
+//@   ensures numLeaves <= pow2(63) && row <= treeRowsS(numLeaves) ==> res == (hasRoot(numLeaves, row) && position == rootPosS(numLeaves, row, treeRowsS(numLeaves)))
+//@   ensures numLeaves <= pow2(63) && row > treeRowsS(numLeaves) && row <= 64 ==> !res
+//@   ensures numLeaves <= pow2(63) && res ==> inRow(position, treeRowsS(numLeaves)) && rowOf(position, treeRowsS(numLeaves)) == row
+//@   split treeRowsS(numLeaves) 0 63
+
+//@ func isRootPosition(position uint64, numLeaves uint64) (res bool)
+//@   ensures numLeaves <= pow2(63) ==> res == (inRow(position, treeRowsS(numLeaves)) && hasRoot(numLeaves, rowOf(position, treeRowsS(numLeaves))) && position == rootPosS(numLeaves, rowOf(position, treeRowsS(numLeaves)), treeRowsS(numLeaves)))
+//@   split treeRowsS(numLeaves) 0 63
+
+//@ func isAncestor(higherPos uint64, lowerPos uint64, forestRows uint8) (res bool)
+//@   ensures forestRows <= 63 && inRow(higherPos, forestRows) && inRow(lowerPos, forestRows) ==> res == isAncS(higherPos, lowerPos, forestRows)
+//@   split forestRows 0 63
+
+//@ func removeBit(val uint64, bit uint64) (res uint64)
+//@   ensures bit <= 63 ==> res == removeBitS(val, bit)
+
+//@ func addBit(val uint64, place uint64, bit bool) (res uint64)
+//@   ensures place <= 63 ==> res == addBitS(val, place, bit)
+
+//@ func calcNextPosition(position uint64, delPos uint64, forestRows uint8) (res uint64, err error)
+//@   ensures forestRows <= 63 && inRow(position, forestRows) && inRow(delPos, forestRows) ==> (err != nil) == (rowOf(delPos, forestRows) < rowOf(position, forestRows))
+//@   ensures forestRows <= 63 && inRow(position, forestRows) && inRow(delPos, forestRows) && rowOf(delPos, forestRows) < forestRows && underS(position, siblingS(delPos), forestRows) ==> err == nil && res == nextPosS(position, delPos, forestRows)
+//@   split forestRows 0 63
+
+//@ func calcPrevPosition(position uint64, delPos uint64, forestRows uint8) (res uint64)
+//@   ensures forestRows <= 63 && inRow(position, forestRows) && inRow(delPos, forestRows) && rowOf(position, forestRows) >= 1 && rowOf(delPos, forestRows) + 1 >= rowOf(position, forestRows) && rowOf(delPos, forestRows) < forestRows ==> res == prevPosS(position, delPos, forestRows)
+//@   split forestRows 0 63
+
+//@ func inForest(pos uint64, numLeaves uint64, forestRows uint8) (res bool)
+//@   ensures forestRows <= 63 && numLeaves <= pow2(forestRows) ==> res == inForestS(pos, numLeaves, forestRows)
+//@   loop 1: unroll 65
+//@   split forestRows 0 63
+
+//@ func RootPositions(numLeaves uint64, totalRows uint8) (rs []uint64)
+//@   requires totalRows <= 63
+//@   ensures len(rs) <= int(totalRows) + 1
+//@   rac ensures numLeaves <= pow2(totalRows) ==> len(rs) == popcount(numLeaves)   // bounded (RAC): equivalence of two 64-bit adder networks is beyond the solvers
+//@   rac ensures forall r: hasRoot(numLeaves, r) ==> rs[popcount(numLeaves >> (r+1))] == rootPosS(numLeaves, r, totalRows)   // bounded (RAC): element clause
+//@   loop 1: unroll 64
+//@   split totalRows 0 63
+
+//@ func subtreeRow(numLeaves uint64, subTree uint8) (res uint8)
+//@   requires numLeaves <= pow2(63)
+//@   rac ensures subTree < popcount(numLeaves) ==> hasRoot(numLeaves, res) && popcount(numLeaves >> (res+1)) == subTree   // bounded (RAC)
+//@   loop 1: unroll 65
+
+//@ func translatePositions(positions []uint64, fromTotalRow uint8, toTotalRow uint8) (res []uint64)
+//@   ensures len(res) == len(positions)
+//@   rac ensures forall k: res[k] == translateS(positions[k], fromTotalRow, toTotalRow)   // bounded (RAC)
+//@   loop 1: invariant len(targets) == len(positions)
+
+//@ func DetectOffset(position uint64, numLeaves uint64) (tree uint8, branchLen uint8, bits uint64, err error)
+//@   requires numLeaves <= pow2(63)
+//@   ensures tree <= 64 && (err != nil ==> tree == 0 && branchLen == 0 && bits == 0)
+//@   rac ensures existsS(position, numLeaves) ==> err == nil && tree == biggerTrees(numLeaves, treeOf(position)) && branchLen == treeOf(position) - rowOf(position) && lowbits((^bits)^1, branchLen) == offsetInTree(position)   // bounded (RAC): symbolic query exceeds 20 s per closed row
+//@   loop 1: unroll 66
+
+// ---- C16 "mutually inverse" lemmas, proved from the contracts alone -------------------------
+
+//@ lemma parent_of_children(p uint64, fr uint8)
+//@   requires fr <= 63 && inRow(p, fr) && rowOf(p, fr) >= 1
+//@   ensures Parent(LeftChild(p, fr), fr) == p
+//@   ensures Parent(RightChild(p, fr), fr) == p
+//@   split fr 0 63
+
+//@ lemma child_of_parent(p uint64, fr uint8)
+//@   requires fr <= 63 && inRow(p, fr) && rowOf(p, fr) < fr
+//@   ensures LeftChild(Parent(p, fr), fr) == leftSib(p)
+//@   ensures RightChild(Parent(p, fr), fr) == rightSib(p)
+//@   split fr 0 63
+
+//@ lemma detectrow_parent(p uint64, fr uint8)
+//@   requires fr <= 63 && inRow(p, fr) && rowOf(p, fr) < fr
+//@   ensures DetectRow(Parent(p, fr), fr) == DetectRow(p, fr) + 1
+//@   split fr 0 63
+
+//@ lemma detectrow_child(p uint64, fr uint8)
+//@   requires fr <= 63 && inRow(p, fr) && rowOf(p, fr) >= 1
+//@   ensures DetectRow(LeftChild(p, fr), fr) + 1 == DetectRow(p, fr)
+//@   split fr 0 63
+
+//@ lemma parentmany_childmany(p uint64, k uint8, fr uint8)
+//@   requires fr <= 63 && inRow(p, fr) && k <= rowOf(p, fr)
+//@   ensures ParentMany(ChildMany(p, k, fr), k, fr) == p
+//@   split fr 0 63
+
+//@ lemma parentmany_compose(p uint64, j uint8, k uint8, fr uint8)
+//@   tier thorough
+//@   requires fr <= 63 && inRow(p, fr) && j <= fr && k <= fr && rowOf(p, fr) + j + k <= fr
+//@   ensures ParentMany(ParentMany(p, j, fr), k, fr) == ParentMany(p, j + k, fr)
+//@   split fr 0 63
+
+//@ lemma parentmany_one(p uint64, fr uint8)
+//@   requires fr <= 63 && inRow(p, fr) && rowOf(p, fr) < fr
+//@   ensures ParentMany(p, 1, fr) == Parent(p, fr)
+//@   split fr 0 63
+
+//@ lemma translate_roundtrip(p uint64, a uint8, b uint8)
+//@   tier thorough
+//@   requires a <= 63 && b <= 63 && inRow(p, a) && rowOf(p, a) <= b && offsetOf(p, a) < rowLen(rowOf(p, a), b)
+//@   ensures translatePos(translatePos(p, a, b), b, a) == p
+//@   ensures DetectRow(translatePos(p, a, b), b) == DetectRow(p, a)
+//@   split a 0 63
+
+//@ lemma rootposition_row(n uint64, r uint8, fr uint8)
+//@   requires fr <= 63 && r <= fr && n <= pow2(fr) && hasRoot(n, r)
+//@   ensures DetectRow(rootPosition(n, r, fr), fr) == r
+//@   split fr 0 63
+
+//@ lemma prev_inverts_next(p uint64, d uint64, fr uint8)
+//@   requires fr <= 63 && inRow(p, fr) && inRow(d, fr) && rowOf(d, fr) < fr && underS(p, siblingS(d), fr)
+//@   ensures calcPrevPosition(calcNextPosition(p, d, fr), d, fr) == p
+//@   split fr 0 63
+
+//@ lemma removebit_addbit(v uint64, k uint64, b bool)
+//@   requires k <= 63 && v < pow2(63)
+//@   ensures removeBit(addBit(v, k, b), k) == v
